@@ -270,6 +270,12 @@ impl VisitMut for Passes {
                     }
                 }
             }
+            Expr::MethodCall(m) if m.method == "try_into" && m.args.is_empty() && m.turbofish.is_none() => {
+                // R-TRYINTO: the blanket `impl<T, U: TryFrom<T>> TryInto<U> for T` is `U::try_from(self)`
+                let r = &m.receiver;
+                self.log.push(format!("R-TRYINTO line {}", m.method.span().start().line));
+                *e = parse_quote!( core::convert::TryFrom::try_from(#r) );
+            }
             Expr::MethodCall(m) => {
                 let name = m.method.to_string();
                 for (from, to) in &self.renames {
@@ -855,6 +861,12 @@ fn process_fn(cx: &mut Ctx, vis: &Visibility, sig: &Signature, block: &Block, in
     let vis_ts = if in_trait_impl { quote!() } else { vis.to_token_stream() };
     let src = &cx.o.src;
     if is_stub {
+        for a in sig.inputs.iter_mut() {
+            match a {
+                FnArg::Receiver(r) => { if r.reference.is_none() { r.mutability = None; } }
+                FnArg::Typed(pt) => { if let Pat::Ident(pi) = &mut *pt.pat { pi.mutability = None; } }
+            }
+        }
         let (ident, generics, inputs) = (&sig.ident, &sig.generics, &sig.inputs);
         let wc = &sig.generics.where_clause;
         let ret = match &sig.output { ReturnType::Default => quote!(), ReturnType::Type(_, t) => quote!( -> (res: #t) ) };
@@ -919,7 +931,7 @@ fn process_fn(cx: &mut Ctx, vis: &Visibility, sig: &Signature, block: &Block, in
     let wc = &sig.generics.where_clause;
     let ret = match &sig.output { ReturnType::Default => quote!(), ReturnType::Type(_, t) => quote!( -> (res: #t) ) };
     let stmts = &block.stmts;
-    let ts = quote!( #[verifier::loop_isolation(false)] #vis_ts fn #ident #generics ( #inputs ) #ret #wc #head { #fs; #(#stmts)* } );
+    let ts = quote!( #[verifier::spinoff_prover] #[verifier::loop_isolation(false)] #vis_ts fn #ident #generics ( #inputs ) #ret #wc #head { #fs; #(#stmts)* } );
     let mut s = String::new();
     print_tokens(ts, &mut s, &mut ll);
     cx.out.push_str(&format!("//@vx-fn-begin {} body src={} label={}\n__vx_attr_{}\n", fkey, src, cx.o.label, fkey));
